@@ -188,7 +188,8 @@ class SessionManager(GrantManager):
         :return:
         """
         if auth_req:
-            sector_identifier = sector_identifier or auth_req.get("sector_identifier_uri", "")
+            # the sector comes from the client's registration only: nothing the request says
+            # enters the subject identifier
             _claims = auth_req.get("claims", {})
             if scopes is None:
                 scopes = auth_req.get("scope")
